@@ -8,6 +8,9 @@
 # include "sandy2x/curve25519_sandy2x.h"
 #endif
 #include "ref10/x25519_ref10.h"
+#ifdef SODIUM_VERIF
+# include "private/verif.h"
+#endif
 static const crypto_scalarmult_curve25519_implementation *implementation =
     &crypto_scalarmult_curve25519_ref10_implementation;
 
@@ -50,10 +53,16 @@ int
 _crypto_scalarmult_curve25519_pick_best_implementation(void)
 {
     implementation = &crypto_scalarmult_curve25519_ref10_implementation;
+#ifdef SODIUM_VERIF
+    SODIUM_VERIF_EVENT("pick", "curve25519", "ref10");
+#endif
 
 #ifdef HAVE_AVX_ASM
     if (sodium_runtime_has_avx()) {
         implementation = &crypto_scalarmult_curve25519_sandy2x_implementation;
+#ifdef SODIUM_VERIF
+        SODIUM_VERIF_EVENT("pick", "curve25519", "sandy2x");
+#endif
     }
 #endif
     return 0;
